@@ -32,6 +32,7 @@ func (s *Sel) apiMethod(name string) *ssa.Function {
 func runC08(c *Ctx) {
 	p := c.P
 	s := p.Selectors()
+	s.checkFailedShutdownCommandKills(c)
 	ls := p.Locksets(s.Runner)
 	spawnSite := CallOfFn("Spawn", s.Spawns...)
 	spawnDeep := p.Deep(spawnSite)
